@@ -337,7 +337,12 @@ def _getitem(fr, base, key, site=None):
             v = basic_index(base, norm_key(key), ctx, site=site)
             if v.rank == 0 and (base.lib == 'np' or ctx.safety):
                 if ctx.safety and base.cell.init is not None:
-                    ctx.oblige("init-before-read@%s" % (site,), base.cell.init(*v.cidx([])), 'init')
+                    goal = base.cell.init(*v.cidx([]))
+                    if ctx.opts.get('no_index') and base.cell.base_shape is not None:
+                        # index safety is outside this contract: the read is required to be initialised
+                        # whenever it is inside the array
+                        goal = Implies(And(*[in_range_(i, d) for i, d in zip(v.cidx([]), base.cell.base_shape)]), goal)
+                    ctx.oblige("init-before-read@%s" % (site,), goal, 'init')
                 return v.elem()
             return v
         return advanced_get(fr, base, key, site)
@@ -840,7 +845,9 @@ def _m_type(fr, x, dtype=None, *a, **kw):
     elif x.kind == 'bool':
         f = lambda *i: ite(s(*i), 1, 0)
     elif k == 'int' and x.kind == 'real':
-        raise Unsupported("float -> int cast")
+        if not getattr(x, 'rounded', False):
+            raise Unsupported("float -> int cast")
+        f = lambda *i: (lambda v: z3.ToInt(v) if O.is_sym(v) and z3.is_real(v) else (int(v) if not O.is_sym(v) else v))(s(*i))
     else:
         f = s
     t = Tn.fresh(x.shape, f, k, lib=x.lib)
@@ -1696,7 +1703,8 @@ def _float(fr, x=0.0):
     x = unwrap_scalar(x)
     if isinstance(x, str):
         if x in ('inf', '-inf'):
-            return Opaque(x, 'inf', {'sign': -1 if x[0] == '-' else 1})
+            fr.ctx.trusted.add('infinities modelled as +-PINF, one unspecified real > 10^30')
+            return O.PINF if x == 'inf' else -O.PINF
         return float(x)
     if isinstance(x, (int, float)):
         return float(x)
@@ -1833,6 +1841,48 @@ def _set(fr, xs=()):
     if isinstance(seq, list) and all(not O.is_sym(x) for x in seq):
         return list(dict.fromkeys(seq))
     raise Unsupported("set of symbolic values")
+
+
+ROUND = z3.Function('ROUND', z3.RealSort(), z3.IntSort())
+
+
+@lib('numpy.round', 'numpy.around', 'torch.round')
+def _round(fr, x, *a, **kw):
+    """round half to even: an integer within 1/2 of its argument (defining inequalities only)"""
+    def r1(v):
+        if not O.is_sym(v):
+            return float(round(v))
+        vz = O.to_z3(v)
+        if z3.is_int(vz):
+            return vz
+        return z3.ToReal(ROUND(vz))
+    if isinstance(x, Tn):
+        s_ = x.snapshot()
+        shp = list(x.shape)
+        q = z3.Real('rq')
+        fr.ctx.assume(z3.ForAll([q], z3.And(z3.ToReal(ROUND(q)) - q <= 0.5, q - z3.ToReal(ROUND(q)) <= 0.5), patterns=[ROUND(q)]))
+        t = Tn.fresh(shp, lambda *i: r1(s_(*i)), 'real', lib=x.lib)
+        t.rounded = True
+        return t
+    return r1(unwrap_scalar(x))
+
+
+LOG2 = z3.Function('LOG2', z3.RealSort(), z3.RealSort())
+
+
+@lib('math.log2')
+def _log2(fr, x):
+    x = unwrap_scalar(x)
+    if not O.is_sym(x):
+        import math
+        return math.log2(x)
+    xz = O.to_z3(x)
+    return LOG2(z3.ToReal(xz) if z3.is_int(xz) else xz)
+
+
+@lib('numpy.log2', 'math.log', 'math.pow', 'math.sqrt', 'math.floor', 'math.ceil')
+def _math_opaque(fr, *a, **kw):
+    raise Unsupported("transcendental / rounding function without contract")
 
 
 @lib('numpy.random.randint', 'numpy.random.seed', 'numpy.random.permutation')
